@@ -163,7 +163,7 @@ def check_result_sites(ctx, chk):
         for ev in cf.d.summary.events:
             if ev.kind == "new" and ev.data["cls"] == "ActionResult":
                 seen.setdefault(ev.loc, (cf, ev))
-    chk.floor("C07.flags", len(seen), 16, "ActionResult construction sites")
+    chk.floor("C07.flags", len(seen), 8, "ActionResult construction sites")
     for loc, (cf, ev) in sorted(seen.items()):
         f = cf.d.ip.heap[ev.data["obj"][2]]["fields"]
         vals = {k: f.get(k) for k in ("success", "connection_error", "permission_error",
